@@ -560,7 +560,9 @@ func checkB(it *proto.RTItem, r *proto.RTResult) []proto.Issue {
 // The HTTP server keeps one Traceroute (and its fetcher) for the life of the process: a request must be answered whatever
 // the public-IP lookups of earlier requests did.
 
-var provKinds = []string{"ok", "http-404", "transport-error", "ok-ipv6"}
+// "never-answers": the exchange ends only when the per-provider time limit passes (the lookup fails with a deadline error
+// although the caller's context is healthy); "http-503": retried inside that limit
+var provKinds = []string{"ok", "http-404", "transport-error", "ok-ipv6", "never-answers", "http-503"}
 
 type CScn struct {
 	Seq   []int `json:"provider_per_request"` // provider behaviour during request i
@@ -579,6 +581,14 @@ func (t provRT) RoundTrip(req *http.Request) (*http.Response, error) {
 		return &http.Response{StatusCode: 200, Status: "200 OK", Body: io.NopCloser(strings.NewReader("2001:db8::44\n")), Header: http.Header{}, Request: req}, nil
 	case "http-404":
 		return &http.Response{StatusCode: 404, Status: "404 Not Found", Body: io.NopCloser(strings.NewReader("nope")), Header: http.Header{}, Request: req}, nil
+	case "http-503":
+		return &http.Response{StatusCode: 503, Status: "503 Service Unavailable", Body: io.NopCloser(strings.NewReader("busy")), Header: http.Header{}, Request: req}, nil
+	case "never-answers":
+		if d := req.Context().Done(); d != nil {
+			<-vsched.RecvCh(d)
+			return nil, req.Context().Err()
+		}
+		vsched.Block(vsched.Never, -1, "http exchange stalled and the request carries no context")
 	}
 	return nil, errors.New("connection refused")
 }
